@@ -18,7 +18,11 @@ PROPS = {
                 "per-item / batch / batch-with-one-injected-failure / store-without-batch mutation paths, operator RequeueDead rounds; every lease mutation is "
                 "checked against the table when it is applied; <= max+1 Deliver calls per message per cycle, terminal state delivered/removed or dead with the "
                 "table's reason, one attempt record per Deliver call; non-trivial (lifecycle) = a retry followed by a different outcome class; table cases with "
-                "an accepted config are all non-trivial; distinct by SHA-256 of the case JSON",
+                "an accepted config are all non-trivial; distinct by SHA-256 of the case JSON. "
+                "real-deliverer tier: C16's delivery worlds (the real HTTPDeliverer with a compiled egress policy, scripted redirect chains of 0-11 hops, final "
+                "status from 101-599) run through handleDelivery: a denial on the first or any later hop must surface as ErrPolicyDenied and settle as "
+                "dead:policy_denied with exactly one attempt record, an answered delivery must settle by the table for the status of its last answer; "
+                "non-trivial = a denial, a followed redirect or a non-2xx last answer",
         "assumptions": [SAMPLED, _MAPPING,
                         "lease mutations on the store succeed (as the statement says); the injected batch failure applies nothing before it fails",
                         "1xx/3xx answers and signing errors: the statement only says they are not success; retry-while-attempt<=max or any non-empty dead reason is accepted",
@@ -27,6 +31,7 @@ PROPS = {
                         "a jitter the compiler accepts outside [0,1] (NaN) is outside the quantifier: classification is judged, the delay interval is not"],
         "parts": [{"engine": "push", "test": "TestProp_C06_Table", "quick": 16000, "thorough": 160000, "shards": {"quick": 8, "thorough": 16}},
                   {"engine": "push", "test": "TestProp_C06_Lifecycle", "quick": 24000, "thorough": 160000, "shards": {"quick": 16, "thorough": 16}},
+                  {"engine": "push", "test": "TestProp_C06_RealDeliverer", "quick": 6000, "thorough": 200000, "shards": {"quick": 4, "thorough": 16}},
                   {"engine": "push", "test": "TestProp_C06_Live", "thorough": 4000, "tiers": ["thorough"]}],
         "guards": ["path:per-item", "path:batch", "path:batch-fallback", "retry-then-delivered", "retry-then-dead", "requeue-cycle", "backend:sqlite",
                    "dead:max_retries", "dead:no_retry", "dead:policy_denied", "sweep"],
